@@ -192,6 +192,15 @@ func init() {
 			}
 			return in.ts.BoolC(true)
 		},
+		"zzvExpOf": func(in *Interp, a []Value) Value {
+			// a positive finite v with math.Log(v) == l, math.Log being the uninterpreted function the stub
+			// uses (natively: v = math.Exp(l), so that a counterexample in terms of l replays)
+			l := a[0].(*Term)
+			v := in.ts.FFromBits(in.p.Fresh("expof", SBV64, "f64bits"))
+			in.p.Assume(in.ts.And(in.ts.FLt(in.ts.F64C(0), v), in.ts.FLt(v, in.ts.F64C(math.Inf(1)))))
+			in.p.Assume(in.ts.FEq(in.ts.UF("math.Log", SF64, v), l))
+			return v
+		},
 		"zzvBound": func(in *Interp, a []Value) Value {
 			in.p.run.mu.Lock()
 			in.p.run.Bounds[str(a[0])] = str(a[1])
